@@ -54,6 +54,8 @@ func main() {
 		os.Exit(cmdFunc(os.Args[2:]))
 	case "list":
 		os.Exit(cmdList())
+	case "replay":
+		os.Exit(cmdReplay(os.Args[2:]))
 	default:
 		fmt.Println("unknown command")
 		os.Exit(2)
@@ -392,6 +394,22 @@ func (v *vc) reportViolation(prop string, ob *obligation, outDir string, opts so
 			rep["replay"] = info
 		} else if info != "" {
 			rep["replay"] = info
+		}
+	}
+	if suffix != "" && ob.kind != "safety" && ob.status == "sat" {
+		// does the failed condition let the real code panic further on?
+		if ds := v.downstreamPanic(ob, work); ds != nil {
+			sub := map[string]interface{}{}
+			if ok, info := v.replay(ds, work, sub); ok {
+				suffix = ""
+				rep["replay"] = "the failed condition admits a run-time panic at " + ds.name + ": " + info
+				for k, val := range sub {
+					rep[k] = val
+				}
+			} else {
+				rep["downstream_panic_candidate"] = ds.name
+				rep["downstream_replay"] = info
+			}
 		}
 	}
 	if suffix != "" {
